@@ -671,7 +671,26 @@ def rule_value_semantics(repo):
                                   "object on every path (never the operand itself); only the in-place operators return self")
     m = repo.mod(BITS)
     meths = m.methods('Bits')
-    inplace = {k for k in meths if k.startswith('__i') and k.endswith('__') and k not in ('__init__', '__int__', '__index__', '__invert__')}
+    # the two operators the DSL treats as assignments to a signal / register (R-C09-optable accepts exactly `@=` and `<<=` as
+    # writes) update the object in place; every OTHER augmented operator (+=, -=, &=, |=, ...) is arithmetic on a value: if the
+    # class defines it at all it must build a new Bits like its binary counterpart, or `b = a; b += 1` changes a as well
+    ASSIGNMENT_OPS = ('__imatmul__', '__ilshift__')
+    aug = {k for k in meths if k.startswith('__i') and k.endswith('__') and k not in ('__init__', '__int__', '__index__', '__invert__')}
+    inplace = {k for k in aug if k in ASSIGNMENT_OPS}
+    for name in sorted(aug - inplace):
+        f = meths[name]
+        me = f.args.args[0].arg
+        rets = [n for n in walk_no_nested(f) if isinstance(n, ast.Return) and n.value is not None]
+        stores = [n for n in walk_no_nested(f) if isinstance(n, (ast.Assign, ast.AugAssign)) and
+                  any(isinstance(t, ast.Attribute) and norm(t.value) == me for t in (n.targets if isinstance(n, ast.Assign) else [n.target]))]
+        bad = stores or [n for n in rets if norm(n.value) == me]
+        cons = f"Bits.{name}: arithmetic augmented operator builds a new value"
+        if bad:
+            r.bad(m, f"Bits.{name}", cons, f"`x {name[3:-2]}= v` updates the object in place and returns it: every other reference to the same Bits object "
+                  f"(b = a; [Bits8(0)] * 4; a saved snapshot of a pointer) changes too, although Bits arithmetic yields values; only @= and <<= "
+                  f"are assignments", bad[0].lineno)
+        else:
+            r.ok(m, f"Bits.{name}", cons)
     value = {k for k in meths if (k.startswith('__') and k.endswith('__') and k not in inplace and
                                   k not in ('__init__', '__setitem__', '__hash__', '__bool__', '__int__', '__index__', '__repr__', '__str__', '__format__'))
              or k in ('clone', 'to_bits')}
@@ -872,6 +891,7 @@ _DEF_NEW = """        start = 0 if idx.start is None else int(idx.start)
         stop  = self._nbits if idx.stop is None else int(idx.stop)
 """
 MUTANTS = [
+    _m('iadd-in-place', "  def __invert__( self ):", "  def __iadd__( self, other ):\n    self._uint = self.__add__( other )._uint\n    return self\n\n  def __invert__( self ):", 'R-C05-value'),
     _m('const-connect-truncates', "      o2 = Const( Type, Type(o2), s )", "      value = Type( o2, trunc_int=True ) if issubclass( Type, Bits ) else Type(o2)\n      o2 = Const( Type, value, s )", 'R-C05-const-fit', file='pymtl3/dsl/ComponentLevel3.py'),
     _m('const-connect-masked', "      o2 = Const( Type, Type(o2), s )", "      o2 = Const( Type, Type(o2 & ((1 << Type.nbits) - 1)), s )", 'R-C05-const-fit', file='pymtl3/dsl/ComponentLevel3.py'),
     _m('setitem-clear-then-merge', "        self._uint = (sv & (~((1 << stop) - (1 << start)))) | \\\n                     ((v._uint & _upper[slice_nbits]) << start)", "        self._uint  = sv & ~((1 << stop) - (1 << start))\n        self._uint |= (v._uint & _upper[slice_nbits]) << start", 'R-C05-alias'),
